@@ -56,3 +56,13 @@ PROPS['C15'] = dict(
     assumptions=[],
     explanation="",
 )
+
+from contracts import hexd
+PROPS['C13'] = dict(
+    units=list(hexd.UNITS),
+    extra=[hexd.parse_independence, hexd.layout_enum],
+    level='proof',
+    min_obligations=100,
+    assumptions=[],
+    explanation="",
+)
